@@ -23,7 +23,8 @@ rand    `-` or `<seed>:<d,d,…>` raw Int63 draws of math/rand after Seed(seed)
         script = events joined by `,`: `h`/`H` a GET/POST request arrives and, once proxied, is held in flight
         at the backend, `q`/`Q` a GET/POST request arrives and completes, `f<k>` the k-th held request
         (0-based) completes, `T`/`U` the handler's circuit breaker (configured by a fifth `:1` in the
-        settings) opens / closes. answer `<o>,<o>,… c=<counter|-> n=<in flight per address|-> f=<fails per address|->`,
+        settings) opens / closes; a sixth setting is lb_retry_match: 0 none, 1 `method POST`, 2 `method GET`,
+        3 `method GET POST`. answer `<o>,<o>,… c=<counter|-> n=<in flight per address|-> f=<fails per address|->`,
         o for a request = failed attempts `<i>!` / `-` (Select returned nil) and the end `<i>` | `503` | `502`,
         joined by `/`; o for `f<k>` = `ok` | `-`
 
@@ -233,7 +234,7 @@ def parsePUp (s : String) : Option PUp :=
 def parsePUps (s : String) : Option (List PUp) :=
   if s == "-" then some [] else (s.splitOn ",").mapM parsePUp
 
-/-- `<unhealthy_request_count>:<fail_duration 0|1>:<max_fails>:<lb_retries>[:<circuit breaker 0|1>]` -/
+/-- `<unhealthy_request_count>:<fail_duration 0|1>:<max_fails>:<lb_retries>[:<circuit breaker 0|1>[:<lb_retry_match 0-3>]]` -/
 def parsePCfg (dyn : Bool) (s : String) (ups : List PUp) : Option PCfg :=
   match s.splitOn ":" with
   | [m, fd, mf, r] => do
@@ -242,7 +243,7 @@ def parsePCfg (dyn : Bool) (s : String) (ups : List PUp) : Option PCfg :=
     let fd ← fd
     let mf ← num 1000 mf
     let r ← num 8 r
-    pure ⟨dyn, m, fd, mf, r, ups, false⟩
+    pure ⟨dyn, m, fd, mf, r, ups, false, 0⟩
   | [m, fd, mf, r, cb] => do
     let m ← num 1000 m
     let fd ← optBool fd
@@ -251,7 +252,17 @@ def parsePCfg (dyn : Bool) (s : String) (ups : List PUp) : Option PCfg :=
     let r ← num 8 r
     let cb ← optBool cb
     let cb ← cb
-    pure ⟨dyn, m, fd, mf, r, ups, cb⟩
+    pure ⟨dyn, m, fd, mf, r, ups, cb, 0⟩
+  | [m, fd, mf, r, cb, rm] => do
+    let m ← num 1000 m
+    let fd ← optBool fd
+    let fd ← fd
+    let mf ← num 1000 mf
+    let r ← num 8 r
+    let cb ← optBool cb
+    let cb ← cb
+    let rm ← num 3 rm
+    pure ⟨dyn, m, fd, mf, r, ups, cb, rm⟩
   | _ => none
 
 def showFinal : Final → String
